@@ -46,6 +46,8 @@ PURE_BUILTINS = {
 NOT_NONE = ('obj', 'tuple', 'list', 'dict', 'set', 'fn', 'cls', 'partial',
             'methodcaller', 'attrgetter', 'itemgetter', 'ntcls', 'nt', 'ext',
             'mod', 'gen')
+RE_METHODS = {'match', 'search', 'fullmatch', 'sub', 'subn', 'split',
+              'findall', 'finditer'}
 MUTATORS = {'append', 'add', 'update', 'extend', 'insert', 'pop', 'remove',
             'clear', 'setdefault', 'appendleft', 'popleft', 'discard',
             'popitem', 'sort', 'reverse', 'extendleft', 'rotate'}
@@ -61,6 +63,13 @@ def _const_tuple(a):
     if a[0] == 'tuple' and all(x[0] == 'const' for x in a[1]):
         return tuple(x[1] for x in a[1])
     return None
+
+
+def none_or_truthy(t):
+    """values that are either None or an object that is always true:
+    the result of re.match / search / fullmatch"""
+    return t[0] == 'call' and t[1][0] == 'ext' and t[1][1] in (
+        're.match', 're.search', 're.fullmatch')
 
 
 def is_boolean(t):
@@ -925,12 +934,22 @@ class PathSum(object):
                     if e.kind == 'call' and e.fn[0] == 'attr' and \
                             struct(e.fn[1]) == sx:
                         return False
+                if none_or_truthy(x):
+                    # a match object or None: falsy means None
+                    for c, p, _ in st.conds:
+                        if c[1] == 'truth' and not p and \
+                                struct(c[2][0]) == sx:
+                            return True
         if a[1] == 'truth':
             x = a[2][0]
             for c, p, _ in st.conds:
                 if c[1] == 'is' and p and struct(c[2][0]) == struct(x) and \
                         is_const(c[2][1]) and c[2][1][1] is None:
                     return False
+                if c[1] == 'is' and not p and none_or_truthy(x) and \
+                        struct(c[2][0]) == struct(x) and \
+                        is_const(c[2][1]) and c[2][1][1] is None:
+                    return True
         if a[1] == 'is' and len(a[2]) == 2 and is_const(a[2][1]):
             # x not in (c1, c2) on the path  =>  x is not c1
             x, c = a[2]
@@ -1780,6 +1799,16 @@ class PathSum(object):
             cache[key] = hit
         return cache[key]
 
+    def _class_literal(self, ent, owner):
+        """A class-level value: names in it are looked up in the class body
+        first (a table of the class's own functions)."""
+        saved = getattr(self, '_lit_scope', None)
+        self._lit_scope = owner
+        try:
+            return self._literal(ent[1], ent[2])
+        finally:
+            self._lit_scope = saved
+
     def _literal(self, e, module=None, depth=0):
         """Constant term of a literal module/class level value (names of
         in-repo functions and classes inside it are resolved)."""
@@ -1822,6 +1851,12 @@ class PathSum(object):
                 r = self.library_call(ent.dotted, ('ext', ent.dotted), args,
                                       {}, St(), None, e)
                 return r[0][1] if r and len(r) == 1 else None
+            if isinstance(ent, External) and ent.dotted == 're.compile':
+                args = [self._literal(a, module, depth + 1) for a in e.args]
+                if any(a is None or not is_const(a) for a in args):
+                    return None
+                # a compiled pattern is its source (and flags)
+                return ('call', ('ext', 're.compile'), tuple(args), (), 0)
             if isinstance(ent, External) and ent.dotted == \
                     'collections.namedtuple':
                 nm = self._literal(e.args[0], module, depth + 1)
@@ -1877,8 +1912,9 @@ class PathSum(object):
                 return (kind, args[0][1])
             return None
         if isinstance(e, (ast.Name, ast.Attribute)) and module is not None:
+            scope = getattr(self, '_lit_scope', None)
             try:
-                ent = self.db.resolve_dotted(module, e)
+                ent = self.db.resolve_dotted(module, e, class_scope=scope)
             except AnalysisError:
                 return None
             ent = self.db.deref(ent) if isinstance(ent, tuple) else ent
@@ -1889,7 +1925,11 @@ class PathSum(object):
             if isinstance(ent, External):
                 return ('ext', ent.dotted)
             if isinstance(ent, tuple) and ent[0] == 'value':
-                return self._literal(ent[1], ent[2], depth + 1)
+                self._lit_scope = None
+                try:
+                    return self._literal(ent[1], ent[2], depth + 1)
+                finally:
+                    self._lit_scope = scope
         return None
 
     def _property(self, b, attr, fi, node, which='getter'):
@@ -2038,7 +2078,7 @@ class PathSum(object):
                 if isinstance(ent, ClassInfo):
                     return [(st, ('cls', ent))]
                 if isinstance(ent, tuple) and ent[0] == 'value':
-                    v = self._literal(ent[1], ent[2])
+                    v = self._class_literal(ent, ad.owner)
                     if v is not None:
                         return [(st, v)]
             return [(st, ('attr', b, attr))]
@@ -2070,7 +2110,7 @@ class PathSum(object):
                                 attr in k.attrs
                                 for k in self.db.subclasses(ci)))):
                     # class-level constant nothing stores on instances
-                    v = self._literal(ent[1], ent[2])
+                    v = self._class_literal(ent, ad.owner)
                     if v is not None:
                         return [(st, v)]
         return [(st, ('attr', b, attr))]
@@ -2470,6 +2510,15 @@ class PathSum(object):
         if k == 'builtin' or (k == 'ext' and fn[1].startswith('builtins.')):
             nm = fn[1].replace('builtins.', '')
             return self.builtin(nm, fn, args, kwargs, st, fi, node)
+        if k == 'attr' and fn[1][0] == 'call' and fn[1][1] == (
+                'ext', 're.compile') and fn[2] in RE_METHODS and \
+                not fn[1][3] and len(fn[1][2]) in (1, 2):
+            # re.compile(P).m(s) is re.m(P, s)
+            extra = {'flags': fn[1][2][1]} if len(fn[1][2]) == 2 else {}
+            kw = dict(kwargs)
+            kw.update(extra)
+            return self.apply(('ext', 're.' + fn[2]),
+                              [fn[1][2][0]] + list(args), kw, st, fi, node)
         if k == 'attr':
             r = self.method(fn[1], fn[2], args, kwargs, st, fi, node)
             if r is not None:
